@@ -468,3 +468,38 @@ KEEP += [
 ]
 
 MUTANTS.append(('M88', PY, "              c3: {}\\n  \\", "              c3: {:.3}\\n  \\", 'C19', 'R19.2', 'c3 written with three decimals'))
+
+# ---- seventh batch: the URDF reader
+KEEP += [
+    ('K118', None, [(U, "            let name;\n            let urdf_name = &child.attribute(\"name\")\n                .map(|attr| attr.value().to_string())\n                .unwrap_or_else(|| \"Unnamed\".to_string());\n            if joint_names.is_some() {\n                // If joint names are explicitly given, they are expected to be as they are.\n                name = urdf_name.clone();\n            } else {\n                // Otherwise effort is done to \"simplify\" the names into joint1 to joint6\n                name = preprocess_joint_name(urdf_name);\n            }\n",
+                     "            let urdf_name = &child.attribute(\"name\")\n                .map(|attr| attr.value().to_string())\n                .unwrap_or_else(|| \"Unnamed\".to_string());\n            let name = if joint_names.is_none() {\n                preprocess_joint_name(urdf_name)\n            } else {\n                urdf_name.clone()\n            };\n", False),
+                    (U, "            match limit_element.map(get_limits).transpose() {\n                Ok(Some((from, to))) => {\n                    joint_data.from = from;\n                    joint_data.to = to;\n                }\n                Ok(None) => {}\n                Err(e) => {\n                    println!(\"Joint limits defined but not not readable for {}: {}\",\n                             joint_data.name, e.to_string());\n                }\n            }\n",
+                     "            if let Some(limits) = limit_element {\n                match get_limits(limits) {\n                    Ok((from, to)) => {\n                        joint_data.from = from;\n                        joint_data.to = to;\n                    }\n                    Err(e) => {\n                        println!(\"Joint limits defined but not not readable for {}: {}\",\n                                 joint_data.name, e.to_string());\n                    }\n                }\n            }\n", False)],
+     None, ['C20', 'C07'], 'joint name chosen by an if-expression under the negated test; limits through if-let and match'),
+    ('K119', None, [(U, "    if let Some(caps) = re.captures(attr_value) {\n        let degrees_str = caps.get(1)\n            .ok_or(ParameterError::WrongAngle(format!(\"Bad representation: {}\",\n                                                      attr_value).to_string()))?.as_str();\n        let degrees: f64 = degrees_str.parse()\n            .map_err(|_| ParameterError::WrongAngle(attr_value.to_string()))?;\n        Ok(degrees.to_radians())\n    } else {\n        // Try to parse the input as a plain number in that case it is in radians\n        let radians: f64 = attr_value.parse()\n            .map_err(|_| ParameterError::WrongAngle(attr_value.to_string()))?;\n        Ok(radians)\n    }\n",
+                     "    let Some(caps) = re.captures(attr_value) else {\n        // Try to parse the input as a plain number in that case it is in radians\n        return attr_value.parse::<f64>()\n            .map_err(|_| ParameterError::WrongAngle(attr_value.to_string()));\n    };\n    let degrees_str = caps.get(1)\n        .ok_or(ParameterError::WrongAngle(format!(\"Bad representation: {}\",\n                                                  attr_value).to_string()))?.as_str();\n    let degrees: f64 = degrees_str.parse()\n        .map_err(|_| ParameterError::WrongAngle(attr_value.to_string()))?;\n    Ok(degrees.to_radians())\n", False),
+                    (U, "    let lower_attr = element.attribute(\"lower\")\n        .ok_or_else(|| ParameterError::MissingField(\"lower limit not found\".into()))?\n        .value();\n    let lower_limit = parse_angle(lower_attr)?;\n\n    let upper_attr = element.attribute(\"upper\")\n        .ok_or_else(|| ParameterError::MissingField(\"upper limit not found\".into()))?\n        .value();\n    let upper_limit = parse_angle(upper_attr)?;\n\n    Ok((lower_limit, upper_limit))\n",
+                     "    let read = |key: &str, missing: &str| -> Result<f64, ParameterError> {\n        let attr = element.attribute(key)\n            .ok_or_else(|| ParameterError::MissingField(missing.into()))?;\n        parse_angle(attr.value())\n    };\n    let lower_limit = read(\"lower\", \"lower limit not found\")?;\n    let upper_limit = read(\"upper\", \"upper limit not found\")?;\n    Ok((lower_limit, upper_limit))\n", False)],
+     None, ['C20', 'C07'], 'parse_angle with let-else; both limits read through one closure'),
+    ('K120', U, "        if let Some(existing) = map.get(&joint.name) {\n            // Check if the existing entry is different from the new one\n            if existing != &joint {\n                return Err(Box::new(std::io::Error::new(std::io::ErrorKind::InvalidData,\n                                                        format!(\"Duplicate joint name with different data found: {}\", joint.name))));\n            }\n        } else {\n            map.insert(joint.name.clone(), joint);\n        }\n",
+     "        match map.get(&joint.name) {\n            Some(existing) if *existing != joint => {\n                return Err(Box::new(std::io::Error::new(std::io::ErrorKind::InvalidData,\n                                                        format!(\"Duplicate joint name with different data found: {}\", joint.name))));\n            }\n            Some(_) => {}\n            None => {\n                map.insert(joint.name.clone(), joint);\n            }\n        }\n",
+     ['C20'], 'duplicate test as match with a guard on the dereferenced entry'),
+    ('K121', U, "    if non_zero_values.len() == 1 && (non_zero_values[0] == -1 || non_zero_values[0] == 1) {\n        Ok(non_zero_values[0])\n    } else {\n        Ok(0) // This is a fixed joint\n    }\n",
+     "    if non_zero_values.len() != 1 {\n        return Ok(0); // This is a fixed joint\n    }\n    Ok(non_zero_values[0])\n",
+     ['C20'], 'axis sign: the redundant +-1 test dropped, fixed joint by early return'),
+]
+
+# ---- eighth batch: the YAML reader
+KEEP += [
+    ('K122', Y, "        // Ensure length is either 5 or 6, and pad with 0 if necessary\n        if sign_corrections.len() == 5 {\n            sign_corrections.push(0); // Add 0 as the 6th element\n        }\n\n        if sign_corrections.len() != 6 {\n            return Err(ParameterError::InvalidLength {\n                expected: 6,\n                found: sign_corrections.len(),\n            });\n        }\n",
+     "        match sign_corrections.len() {\n            5 => sign_corrections.push(0),\n            6 => {}\n            n => {\n                return Err(ParameterError::InvalidLength {\n                    expected: 6,\n                    found: n,\n                });\n            }\n        }\n",
+     ['C19'], 'length handling of the sign array as a match on len()'),
+    ('K123', None, [(Y, "            .map(|item| match item {\n                Yaml::String(s) => Self::parse_degrees(s),\n                Yaml::Real(s) => s.parse::<f64>()\n                    .map_err(|_| ParameterError::ParseError(\"Failed to parse angle\".into())),\n                Yaml::Integer(s) => Ok(*s as f64),\n                _ => Ok(0.0),  // Default any invalid entry to 0\n            })\n",
+                     "            .map(Self::read_angle)\n", False),
+                    (Y, "    /// Parses angles from strings in degrees format or plain floats.\n    fn parse_degrees(",
+                     "    fn read_angle(item: &Yaml) -> Result<f64, ParameterError> {\n        match item {\n            Yaml::String(s) => Self::parse_degrees(s),\n            Yaml::Real(s) => s.parse::<f64>()\n                .map_err(|_| ParameterError::ParseError(\"Failed to parse angle\".into())),\n            Yaml::Integer(s) => Ok(*s as f64),\n            _ => Ok(0.0),  // Default any invalid entry to 0\n        }\n    }\n\n    /// Parses angles from strings in degrees format or plain floats.\n    fn parse_degrees(", False)],
+     None, ['C19'], 'the per-entry reader of the offsets array extracted into an associated function'),
+    ('K124', None, [(Y, "        Ok(Parameters {\n            a1: Self::read_number(&params[\"a1\"], \"a1\")?,\n            a2: Self::read_number(&params[\"a2\"], \"a2\")?,\n            b: Self::read_number(&params[\"b\"], \"b\")?,\n",
+                     "        let number = |key: &str| Self::read_number(&params[key], key);\n        let a1 = number(\"a1\")?;\n        let a2 = number(\"a2\")?;\n        let b = number(\"b\")?;\n        Ok(Parameters {\n            a1,\n            a2,\n            b,\n", False)],
+     None, ['C19'], 'three scalars read through a closure keyed by name and held in locals'),
+]
